@@ -1,13 +1,64 @@
-(* C01 — End-to-end payload delivery and request/response correlation.  (statements; see proofs/PipelineProofs.v) *)
+(* C01 — End-to-end payload delivery and request/response correlation.
+   Statements only; proofs in proofs/PipelineProofs.v, composing the layer theorems: send queue (C05: per-stream wire
+   order), fragmenter and reassembly (C03), codec (C02: decode (encode f) = norm f), byte-stream parser (C04: chunking
+   independence, exactness).  Model: model/Pipeline.v over model/SendQueue.v, Fragmenter.v, Frame.v, Parser.v.
+   Dispatch of complete frames to handlers / subscribers / awaitables is the Endpoint model (C07..C12 theorems:
+   one frame, one stream, one object). *)
 From Coq Require Import NArith List Bool Init.Byte.
 From RSV Require Import gen.GenConst lib.Bytes model.Frame model.Parser model.Fragmenter model.SendQueue model.Pipeline
-     proofs.SendQueueProofs.
+     proofs.SendQueueProofs proofs.PipelineProofs.
 Import ListNotations.
 Open Scope N_scope.
 
-(* placeholder until the composition theorem is in: the per-stream wire order theorem it starts from *)
-Theorem C01_per_stream_wire : forall size lenreq, size_ok size -> forall ls k, no_prio ls ->
+(* what "delivered intact" means for one frame: same type, stream, flags, request-n, metadata and data (a fragmentable
+   frame's FOLLOWS bit is reassembly residue nothing reads); any other frame arrives as it is *)
+Theorem C01_delivered_as_def : forall f R, delivered_as f R <->
+  if is_fragmentable f then
+    ftype R = ftype f /\ fsid R = fsid f /\ fign R = fign f /\ freqn R = freqn f /\
+    fmd R = fmd f /\ fdata R = fdata f /\ fcomplete R = fcomplete f
+  else R = f.
+Proof. intros f R. unfold delivered_as. reflexivity. Qed.
+Print Assumptions C01_delivered_as_def.
+
+(* END TO END, byte-stream framing.  For EVERY history ls of send_frame calls and sender steps (any frames on any
+   streams, queued at any moment relative to the sender's progress) after which the sender has written what it was given,
+   EVERY fragment size >= 64 or none, EVERY chunking of the resulting byte stream (single bytes, cuts inside a length
+   prefix, many frames per read), both codec back ends, and EVERY stream k: the complete frames the receiving pipeline
+   (FrameParser, FrameFragmentCache) hands to dispatch on stream k are exactly the frames queued on k — one for one, in
+   order, each delivered intact.  Nothing lost, duplicated, reordered within the stream, merged with or moved to
+   another stream. *)
+Theorem C01_end_to_end : forall bk size lenreq ls chunks k,
+  size_ok size -> no_prio ls ->
   let s := qrun size lenreq ls in
-  on k (wire s) ++ pending (q s) k = concat (map (emissions size lenreq) (on k (enqueued ls))).
-Proof. exact per_stream. Qed.
-Print Assumptions C01_per_stream_wire.
+  (forall j, pending (q s) j = []) ->
+  Forall (fun f => wf f = true /\ lenN (encode f) < 2 ^ 24) (wire s) ->
+  concat chunks = wire_bytes (wire s) ->
+  Forall2 delivered_as (on k (enqueued ls)) (on k (receive bk chunks)).
+Proof. exact end_to_end. Qed.
+Print Assumptions C01_end_to_end.
+
+(* message framing (one frame per message) *)
+Theorem C01_end_to_end_messages : forall size lenreq ls k,
+  size_ok size -> no_prio ls ->
+  let s := qrun size lenreq ls in
+  (forall j, pending (q s) j = []) ->
+  Forall2 delivered_as (on k (enqueued ls)) (on k (snd (rx [] (map norm (wire s))))).
+Proof. exact end_to_end_messages. Qed.
+Print Assumptions C01_end_to_end_messages.
+
+(* the receiver's answers on a stream depend only on that stream's frames, whatever is interleaved with them *)
+Theorem C01_streams_independent : forall k fs c1 c2, EndpointProofs.CWF c1 -> EndpointProofs.CWF c2 ->
+  cache_get c1 k = cache_get c2 k ->
+  on k (snd (rx c1 fs)) = snd (rx c2 (on k fs)) /\ cache_get (fst (rx c1 fs)) k = cache_get (fst (rx c2 (on k fs))) k.
+Proof. exact rx_stream. Qed.
+Print Assumptions C01_streams_independent.
+
+(* non-vacuity: a 150-byte payload fragmented at 64, interleaved with a request on another stream, read in three
+   odd chunks: the premises hold and the payload arrives whole *)
+Theorem C01_example :
+  let s := qrun (Some 64) true ex_ls in
+  (forall j, pending (q s) j = []) /\ length (wire s) = 4%nat /\
+  map (fun f => (ftype f, lenN (fdata f))) (on 1 (receive Cbit [takeN (wire_bytes (wire s)) 5; takeN (dropN (wire_bytes (wire s)) 5) 100;
+                                     dropN (wire_bytes (wire s)) 105])) = [(FT_PAYLOAD, 150)].
+Proof. exact end_to_end_example. Qed.
+Print Assumptions C01_example.
